@@ -103,6 +103,14 @@ func (s *Service) fetchExecutionConfig(ctx context.Context) {
 	s.log.Trace().Msg("Obtained configuration")
 }
 
+// currentExecutionConfig returns the current execution configuration.
+func (s *Service) currentExecutionConfig() blockrelay.ExecutionConfigurator {
+	s.executionConfigMu.RLock()
+	defer s.executionConfigMu.RUnlock()
+
+	return s.executionConfig
+}
+
 func (s *Service) obtainExecutionConfig(ctx context.Context,
 	pubkeys []phase0.BLSPubKey,
 ) (
